@@ -458,18 +458,15 @@ impl<'a> Builder<'a> {
                     let r = if *ty == Ty::Int {
                         X::Int(SMALL_INTS[self.src.pick(5)])
                     } else if rt == Ty::Int {
-                        // float result with an int exponent: base float, or exponent not a non-negative literal
-                        if lt == Ty::Float && self.src.chance(500) {
-                            X::Int(SMALL_INTS[self.src.pick(5)])
-                        } else if self.src.chance(500) {
-                            X::Neg(Box::new(X::Int(1 + SMALL_INTS[self.src.pick(3)])))
-                        } else {
-                            let rs = self.refs_of(&Ty::Int);
-                            if rs.is_empty() {
-                                X::Neg(Box::new(X::Int(2)))
-                            } else {
-                                X::Ref(rs[self.src.pick(rs.len())])
-                            }
+                        // float result with an int exponent: the base is float, or the exponent is not a non-negative
+                        // int *literal* - a negative literal, a reference to an int const (whatever its value), or a
+                        // negated reference
+                        let rs = self.refs_of(&Ty::Int);
+                        match self.src.pick(if rs.is_empty() { 2 } else { 6 }) {
+                            0 if lt == Ty::Float => X::Int(SMALL_INTS[self.src.pick(5)]),
+                            0 | 1 => X::Neg(Box::new(X::Int(1 + SMALL_INTS[self.src.pick(3)]))),
+                            2 | 3 | 4 => X::Ref(rs[self.src.pick(rs.len())]),
+                            _ => X::Neg(Box::new(X::Ref(rs[self.src.pick(rs.len())]))),
                         }
                     } else {
                         self.expr(&rt, 7, d, false)
